@@ -7,6 +7,7 @@ mod fw_c02;
 mod fw_c08;
 mod fw_c03;
 mod c18;
+mod c14;
 
 fn main() {
     common::install_panic_hook();
@@ -20,6 +21,7 @@ fn main() {
         "fw_c03" => fw_c03::run_c03(&args),
         "fw_c17" => fw_c03::run_c17(&args),
         "pbcodec" | "pbcodec-child" => c18::run(&args),
+        "wrappers" => c14::run(&args),
         s => {
             eprintln!("unknown stream {s}");
             std::process::exit(2);
